@@ -76,6 +76,18 @@ CheckRefund(e, post) ==
      (IF rec # {} THEN {} ELSE {"RefundOnlyToARecordedPayer"})
      \cup (IF PayerRec(e.post.dispute.payers, e.id, e.payer) = {} THEN {} ELSE {"RefundClaimedExactlyOnce"})
      \cup (IF Has(disp, e.id) /\ (d.status = FAILED \/ (Executed(d) /\ ResultOf(d) \in {1, 3, 4, 6})) THEN {} ELSE {"RefundOnlyAfterExecutionOfARefundableResult"})
+     \* sub-unit dust: the 10^-6 parts of this payer's pro-rata amounts join the accumulator, whole units of it are burned
+     \* with this withdrawal and the sub-unit rest is carried
+     \cup (IF rec = {} \/ ~Has(disp, e.id) THEN {}
+           ELSE LET p == CHOOSE x \in rec : TRUE
+                    fmb == IF d.status = FAILED THEN d.feetotal // N(20) ELSE Monus(d.slash, d.burn)
+                    fr1 == ((p.amt ** fmb ** E6) // d.feetotal) %% E6
+                    fr2 == IF d.status # FAILED /\ ResultOf(d) \in {1, 4} THEN ((p.amt ** d.slash ** E6) // d.feetotal) %% E6 ELSE Zero
+                    total == dust ++ fr1 ++ fr2
+                    out == ((p.amt ** fmb) // d.feetotal) ++ (IF d.status # FAILED /\ ResultOf(d) \in {1, 4} THEN (p.amt ** d.slash) // d.feetotal ELSE Zero)
+                    left == Monus(bal, e.post.dispute.bal)   \* what left dispute escrow with this withdrawal: the payout and the burn
+                IN IF out \preceq left /\ (left -- out) = total // E6 /\ e.post.dispute.dust = total %% E6 THEN {}
+                   ELSE {"SubUnitDustIsAccumulatedAndBurnedInWholeUnits"})
      \cup (IF rec = {} \/ ~Has(disp, e.id) \/ d.status = FAILED THEN {}
            ELSE LET p == CHOOSE x \in rec : TRUE
                     refund == (p.amt ** Monus(d.slash, d.burn)) // d.feetotal
